@@ -18,6 +18,11 @@ Tie:
      argument, Fiber.yield): closures MADE on one fiber over variables that are OPEN on another fiber's stack and locals of their own, in
      both directions between the same two stacks; oracle = the full reference interpreter (SpecScripts.run_case) = the expectation the
      generator tracks; run on both builds, traces replayed through Upvalues.v.
+     Directed families of round 9 (tools/props/C06_r9.py, outputs known by construction + full reference interpreter on the small ones):
+     SCALE family (one capture / use / exit / slot re-use shape, every dimension - nesting depth around and inside the capturing scope,
+     sibling blocks, locals, captured variables, closures, loop iterations, recursion depth - pushed through a ladder of sizes) and MODULE
+     family (harness `mods`: globals read / written and closures created at points reached from a frame of ANOTHER module: catch, finally,
+     after a fiber switch, after a return, in a callback).  search() runs these two first.
 Known classes (notes/C06-findings.json): unwind_leaves_open_upvalue, break_dead_pops - attributed by ablation:
 the model with that one repair switched on equals the Spec, and the model as configured equals the implementation."""
 import json
@@ -27,6 +32,7 @@ import struct
 
 import yvlib
 from yvlib import hx, log
+from . import C06_r9 as R9
 
 LEVEL = "proof"
 TRUSTED = [
@@ -1843,6 +1849,14 @@ def run(ctx):
     stats = new_stats()
     if ctx.replay_only:
         p = ctx.replay_only.get("prog")
+        if p is None and (ctx.replay_only.get("scale") or ctx.replay_only.get("mf")):
+            # a program of one of the round-9 families: the very source (+ module map), alone, on both builds
+            if ctx.replay_only.get("scale"):
+                R9.run_scale(ctx, stats, run_checked, norm_out, only_replay=ctx.replay_only)
+            else:
+                R9.run_modules(ctx, stats, run_checked, norm_out, 1, only_replay=ctx.replay_only)
+            ctx.cov.update({"evaluations": 1, "rule": "replay of one program of the scale / module family"})
+            return
         if p is None and ctx.replay_only.get("xf"):
             # a program of the cross-fiber family: the very source, alone, on both builds
             ok = xf_judge(ctx, ctx.replay_only["input"], ctx.replay_only["expected"], ctx.replay_only.get("tags"),
@@ -1922,6 +1936,9 @@ def run(ctx):
     nxf = run_crossfiber(ctx, stats, int((48 if quick else 400) * scale), int((16 if quick else 120) * scale))
     log("[C06] cross-fiber family evaluated in %.1fs" % (time.time() - t0))
     t0 = time.time()
+    nr9 = run_round9(ctx, stats)
+    log("[C06] scale + module families evaluated in %.1fs" % (time.time() - t0))
+    t0 = time.time()
     nscripts = script_traces(ctx, stats)
     log("[C06] repository scripts traced in %.1fs" % (time.time() - t0))
     # shrink the first new violation
@@ -1947,7 +1964,10 @@ def run(ctx):
     ctx.violations[:] = kkeep + other[:5]
     ctx.corr_broken[:] = ctx.corr_broken[:8]
     ctx.cov.update({
-        "evaluations": stats["evaluated"] + nscripts + nprobes + nlimits + nxf,
+        "evaluations": stats["evaluated"] + nscripts + nprobes + nlimits + nxf + nr9,
+        "scale_family": stats.get("scale_family", {}),
+        "module_family": stats.get("module_family", {}),
+        "deepnest_family": stats.get("deepnest_family", {}),
         "upvalue_limit_family": stats.get("limit_family", {}),
         "crossfiber_family": stats.get("crossfiber_family", {}),
         "generated_programs_inside_the_proved_fragments": stages,
@@ -1971,6 +1991,56 @@ def run(ctx):
     })
 
 
+def deepnest_programs(rng, quick):
+    """mini-language part of the scale family (round 9): a captured block local, `pre` blocks around it, a chain of `inside` nested blocks
+    after (or before) the capture in the SAME block, the closure used while the variable is live, after its block ended and after the
+    slot was re-used.  Judged like every generated program: eval_cells (the cell Spec), run_m, compiler correspondence, trace equality."""
+    g = G(rng)
+    g.n = 500
+    progs, tags = [], []
+    ladder = [(1, 1), (2, 30), (1, 31), (1, 32), (3, 32), (1, 33), (2, 34), (1, 40), (31, 1), (32, 1), (33, 2), (1, 63), (1, 64), (2, 65), (33, 33)]
+    if not quick:
+        ladder += [(a, b) for a in (1, 2, 5) for b in range(25, 41)] + [(64, 1), (65, 2), (1, 96), (1, 129)]
+    for pre, inside in ladder:
+        h, x, c, w = g.fresh(), g.fresh(), g.fresh(), g.fresh()
+        chain = [("decl", w, L(7))] if rng.random() < 0.6 else []
+        if rng.random() < 0.3:
+            chain.append(("print", CALL(h)))
+        for i in range(inside):
+            chain = [("block", ([("decl", g.fresh(), L(i % 10))] if rng.random() < 0.3 and i < 60 else []) + chain)]
+        cap = [("decl", x, L(1))] + g.publish(h, [], g.inc_body(x, L(1)))
+        inner = (chain + cap) if rng.random() < 0.25 else (cap + chain)
+        inner += [("assign", x, ADD(V(x), L(5))), ("print", CALL(h))]
+        for i in range(pre):
+            inner = [("block", ([("decl", g.fresh(), L(i % 10))] if rng.random() < 0.3 and i < pre - 1 and i < 60 else []) + inner)]
+        reuse = ("block", [("decl", c, L(100)), ("print", CALL(h)), ("print", CALL(h)), ("print", V(c))])
+        progs.append([("block", [g.dummy(h)] + inner + [reuse])] if rng.random() < 0.5 else
+                     [("fun", 499, [], [g.dummy(h)] + inner + [reuse]), ("expr", CALL(499))])
+        tags.append(["scale:deepnest", "deepnest:pre=%d,inside=%d" % (pre, inside)])
+    return progs, tags
+
+
+def run_deepnest(ctx, stats):
+    progs, tags = deepnest_programs(ctx.rng, ctx.quick())
+    res = evaluate(ctx, progs, "deep", trace_n=len(progs) if ctx.quick() else 24)
+    n = 0
+    for d, t in zip(res, tags):
+        if d is not None:
+            judge(ctx, d, stats, tags=t)
+            n += 1
+    stats["deepnest_family"] = {"programs": len(progs), "evaluated": n, "ladder": [t[1] for t in tags][:40],
+                                "stuck_in_spec": sum(1 for d in res if d is not None and "#stuck" in d["spec"])}
+    return n
+
+
+def run_round9(ctx, stats):
+    """round 9: the SCALE family and the MODULE family (tools/props/C06_r9.py), outputs known by construction"""
+    n = R9.run_scale(ctx, stats, run_checked, norm_out)
+    run_deepnest(ctx, stats)          # counted in stats["evaluated"] by judge
+    n += R9.run_modules(ctx, stats, run_checked, norm_out, 40 if ctx.quick() else 300)
+    return n
+
+
 def detuple(x):
     """JSON lists back to the tuple/list AST"""
     if isinstance(x, list):
@@ -1988,6 +2058,14 @@ def search(ctx):
     if old_scale is None:
         os.environ["C06_SCALE"] = "0.5"      # bounds the search to about four minutes (the directed families are not scaled)
     try:
+        # directed families first (seconds): a failing input from them ends the search
+        before = len(ctx.violations)
+        stats = new_stats()
+        run_round9(ctx, stats)
+        if len(ctx.violations) > before:
+            ctx.cov.update({"scale_family": stats.get("scale_family", {}), "module_family": stats.get("module_family", {})})
+            ctx.notes.append("search: the scale / module family produced a failing input; the random search was not run")
+            return
         run(ctx)
     finally:
         ctx.tier = old
